@@ -35,6 +35,7 @@ def run_shard(pid, tier, seed, shard, nshards, out):
     mine = cases[shard::nshards]
     if hasattr(mod, 'setup'):
         mod.setup(ctx, tier)
+    reached = _reach_start()
     budget = float(os.environ.get('VERIF_SHARD_BUDGET', '0') or 0)
     t0 = time.time()
     for c in mine:
@@ -50,7 +51,32 @@ def run_shard(pid, tier, seed, shard, nshards, out):
     ctx.current_case = None
     if hasattr(mod, 'teardown'):
         mod.teardown(ctx)
+    ctx.extra['reached_library_functions'] = sorted(reached)
     json.dump(ctx.dump(), open(out, 'w'), default=str)
+
+
+def _reach_start():
+    """reach evidence (not a verdict): which functions of the library under test were entered by this shard.
+    sys.monitoring PY_START with DISABLE after the first hit of each code object: negligible overhead"""
+    reached = set()
+    try:
+        import sys as _s
+        mon = _s.monitoring
+        from adsan import boot
+        root = os.path.join(boot.repo_path(), 'algopy') + os.sep
+        tool = mon.PROFILER_ID
+        mon.use_tool_id(tool, 'adsan-reach')
+
+        def on_start(code, offset):
+            fn = code.co_filename
+            if fn.startswith(root) and os.sep + 'tests' + os.sep not in fn:
+                reached.add(fn[len(root):] + ':' + code.co_qualname)
+            return mon.DISABLE
+        mon.register_callback(tool, mon.events.PY_START, on_start)
+        mon.set_events(tool, mon.events.PY_START)
+    except Exception:
+        pass
+    return reached
 
 
 def main():
